@@ -7,7 +7,7 @@
 // Rules of scan.l that are modelled (each is covered by sqltok_test.go):
 //
 //   - whitespace is [ \t\n\r\f\v]; `--` comments end at \n or \r only; /* */ comments nest;
-//   - '...' with ” for a quote and NO backslash escapes; E'...' with backslash escapes (\b \f \n \r \t
+//   - '...' with a doubled quote for a quote and NO backslash escapes; E'...' with backslash escapes (\b \f \n \r \t
 //     \v, octal, \x hex, \uXXXX, \UXXXXXXXX incl. surrogate pairs, \c = c); B'..' / X'..'; U&'...' and
 //     U&"..." with \XXXX, \+XXXXXX, \\ escapes (default escape character; a following UESCAPE clause is
 //     the grammar's business); N'...' lexes as the keyword nchar followed by a plain string;
@@ -363,7 +363,7 @@ func (l *lexer) quoted(tokStart, q int, kind Kind) int {
 	return j
 }
 
-// decodeEEscape decodes the backslash escape at s[j] (E'' string); returns the bytes consumed.
+// decodeEEscape decodes the backslash escape at s[j] (escape string); returns the bytes consumed.
 func decodeEEscape(s string, j int, sb *strings.Builder) (int, string) {
 	n := len(s)
 	c := s[j+1]
